@@ -164,6 +164,7 @@ public:
 		// And empty() doesn't guarantee the list is still empty after the function returned.
 		//std::lock_guard<Mutex> lockGuard(mutex);
 
+		EVENTPP_VERIF_POINT("un.cbl.empty");
 		return ! head;
 	}
 
@@ -176,9 +177,11 @@ public:
 		NodePtr node(doAllocateNode(callback));
 
 		std::lock_guard<Mutex> lockGuard(mutex);
+		EVENTPP_VERIF_POINT("cs.cbl.append");
 
 		if(head) {
 			node->previous = tail;
+			EVENTPP_VERIF_POINT("cs.cbl.append.link");
 			tail->next = node;
 			tail = node;
 		}
@@ -195,9 +198,11 @@ public:
 		NodePtr node(doAllocateNode(callback));
 
 		std::lock_guard<Mutex> lockGuard(mutex);
+		EVENTPP_VERIF_POINT("cs.cbl.prepend");
 
 		if(head) {
 			node->next = head;
+			EVENTPP_VERIF_POINT("cs.cbl.prepend.link");
 			head->previous = node;
 			head = node;
 		}
@@ -215,10 +220,12 @@ public:
 		//assert(before.expired() || ownsHandle(before));
 
 		NodePtr beforeNode = before.lock();
+		EVENTPP_VERIF_POINT("un.cbl.insert.before_locked");
 		if(beforeNode) {
 			NodePtr node(doAllocateNode(callback));
 
 			std::lock_guard<Mutex> lockGuard(mutex);
+			EVENTPP_VERIF_POINT("cs.cbl.insert");
 
 			if(beforeNode->counter != removedCounter) {
 				doInsert(node, beforeNode);
@@ -251,9 +258,11 @@ public:
 		// It looks like the lock can be put inside the `if` below,
 		// but that doesn't work in multi-threading and cause related unit tests fail.
 		std::lock_guard<Mutex> lockGuard(mutex);
+		EVENTPP_VERIF_POINT("cs.cbl.remove");
 
 		auto node = handle.lock();
 		if(node && node->counter != removedCounter) {
+			EVENTPP_VERIF_POINT("cs.cbl.remove.found");
 			doFreeNode(node);
 			return true;
 		}
@@ -264,6 +273,7 @@ public:
 	bool ownsHandle(const Handle & handle) const
 	{
 		std::lock_guard<Mutex> lockGuard(mutex);
+		EVENTPP_VERIF_POINT("cs.cbl.owns");
 
 		auto node = handle.lock();
 		if(node && node->counter != removedCounter) {
@@ -347,13 +357,16 @@ private:
 
 		{
 			std::lock_guard<Mutex> lockGuard(mutex);
+			EVENTPP_VERIF_POINT("cs.cbl.traverse.head");
 			node = head;
 		}
 
 		const Counter counter = currentCounter.load(std::memory_order_acquire);
 
 		while(node) {
+			EVENTPP_VERIF_POINT("un.cbl.traverse.node");
 			if(node->counter != removedCounter && counter >= node->counter) {
+				EVENTPP_VERIF_POINT("un.cbl.traverse.call");
 				if(! f(node)) {
 					return false;
 				}
@@ -361,6 +374,7 @@ private:
 
 			{
 				std::lock_guard<Mutex> lockGuard(mutex);
+				EVENTPP_VERIF_POINT("cs.cbl.traverse.step");
 				node = node->next;
 			}
 		}
@@ -386,6 +400,7 @@ private:
 	{
 		node->previous = beforeNode->previous;
 		node->next = beforeNode;
+		EVENTPP_VERIF_POINT("cs.cbl.doInsert.link");
 		if(beforeNode->previous) {
 			beforeNode->previous->next = node;
 		}
@@ -406,6 +421,7 @@ private:
 		if(node->next) {
 			node->next->previous = node->previous;
 		}
+		EVENTPP_VERIF_POINT("cs.cbl.doFreeNode.unlink");
 		if(node->previous) {
 			node->previous->next = node->next;
 		}
@@ -414,6 +430,7 @@ private:
 		// because node can be a reference to head or tail, and after the assignment, node
 		// can be null pointer.
 		node->counter = removedCounter;
+		EVENTPP_VERIF_POINT("cs.cbl.doFreeNode.marked");
 
 		if(head == node) {
 			head = node->next;
@@ -446,6 +463,7 @@ private:
 				std::lock_guard<Mutex> lockGuard(mutex);
 				NodePtr node = head;
 				while(node) {
+					EVENTPP_VERIF_POINT("cs.cbl.wrap.node");
 					node->counter = 1;
 					node = node->next;
 				}
